@@ -51,6 +51,9 @@ def Cur.del (c : Cur) (g : Nat) : Cur := c.filter (·.1 ≠ g)
 /-- the execution a call was observed to get its result from (value id, or error id). -/
 def source (o : Obs) : Option Nat := match o.val with | some v => some v | none => o.err
 
+/-- a joiner that was handed the zero values: it shared a flight whose function panicked (`c.val`/`c.err` never stored). -/
+def zeroJoiner (o : Obs) : Bool := !o.ran && o.val.isNone && o.err.isNone && !o.panicked
+
 /-! ### SingleFlight -/
 namespace SFx
 open SF
@@ -83,9 +86,11 @@ def forceDelete (line : Nat) (p : Tid) (pid : Nat) : M Unit := do
   let st ← get
   if (← pcOf p) = .d0 then
     for (g, o) in st.cur do
-      if (← pcOf g) = .l0 ∧ !o.ran ∧ source o = some pid then advs line g [.l1, .w0, .w1]
-    advs line p [.d1, .d2, .d3, .r0]
-  else if (← pcOf p) = .r0 then pure ()
+      -- (a zero-valued joiner joins the first panicking flight that is deleted while it is invoked: joining early is always possible)
+      if (← pcOf g) = .l0 ∧ !o.ran ∧ (source o = some pid ∨ (zeroJoiner o ∧ st.s.pn p ∧ st.s.key g = st.s.key p)) then advs line g [.l1, .w0, .w1]
+    -- a leader whose function panicked unwinds through the same deferred block, then the panic leaves Do (`px`)
+    advs line p [.d1, .d2, .d3, (if (← get).s.pn p then .px else .r0)]
+  else if (← pcOf p) = .r0 ∨ (← pcOf p) = .px then pure ()
   else throw (line, s!"model: the execution of call {pid} (goroutine {p}) is still running ({repr (← pcOf p)})",
               "the implementation started another execution for the key / handed its result out")
 
@@ -109,10 +114,13 @@ def onEvent (e : Ev) : M Unit := do
     match ← leaderOfKey o.key with
     | some (p, pid) => tag "sf-model-delete-forced-by-next-flight"; forceDelete ln p pid
     | none => pure ()
-    advs ln g [.l1, .n0, .n1, .n2, .n3, .m0, .m1]
+    advs ln g [.l1, .n0, .n1, .n2, .n3, .m0]
+    if o.spanic then tag "sf-model-fn-panics"; adv ln g 1 .mp else adv ln g 0 .m1
   | .fe =>
-    adv ln g o.id .m2
-    adv ln g 0 .d0
+    if o.spanic then adv ln g 0 .d0
+    else
+      adv ln g o.id .m2
+      adv ln g 0 .d0
   | .ret =>
     if o.ran then
       forceDelete ln g o.id
@@ -125,15 +133,24 @@ def onEvent (e : Ev) : M Unit := do
         tag "sf-model-delete-forced-by-joiner-return"
         forceDelete ln p (((st.cur.lookup p).map (·.id)).getD 0)
       adv ln g 0 .w2
+    let nrets := (← get).s.rets.length
+    let wasPx := (← pcOf g) = .px
     adv ln g 0 .idle
     let st ← get
-    match st.s.rets.head? with
-    | none => throw (ln, "model: no return recorded", "return")
-    | some r =>
-      let want := (some r.val, some r.fresh)
-      let got := (o.val, if o.ex then o.fresh else some r.fresh)
-      if want ≠ got then
-        throw (ln, s!"model returns val={r.val} fresh={r.fresh}", s!"val={o.val} fresh={o.fresh}")
+    if wasPx then
+      -- the panic propagates out of Do/DoEx: no return record in the model, a panic in the implementation
+      if !o.panicked ∨ st.s.rets.length ≠ nrets then
+        throw (ln, "model: the panic of fn propagates to the caller", s!"returned val={o.val} err={o.err}")
+    else
+      if o.panicked then throw (ln, "model: the call returns", "the call panicked")
+      match st.s.rets.head? with
+      | none => throw (ln, "model: no return recorded", "return")
+      | some r =>
+        -- 0 is Go's zero value (`nil`), ids are positive
+        let want := ((if r.val = 0 then none else some r.val), some r.fresh)
+        let got := (o.val, if o.ex then o.fresh else some r.fresh)
+        if want ≠ got then
+          throw (ln, s!"model returns val={r.val} fresh={r.fresh}", s!"val={o.val} fresh={o.fresh}")
     modify fun st => { st with cur := st.cur.del g }
 
 def explain (h : List Obs) : Except Err (Nat × List String) := do
@@ -173,8 +190,8 @@ def pcOf (g : Tid) : M PC := do return (← get).s.pc g
 
 /-- the goroutine registered for the key finishes its deferred block (it waits lazily at `e0`). -/
 def forceRelease (line : Nat) (p : Tid) : M Unit := do
-  if (← pcOf p) = .e0 then advs line p [.e1, .e2, .e3, .e4]
-  else if (← pcOf p) = .e4 then pure ()
+  if (← pcOf p) = .e0 then advs line p [.e1, .e2, .e3, (if (← get).s.pn p then .px else .e4)]
+  else if (← pcOf p) = .e4 ∨ (← pcOf p) = .px then pure ()
   else throw (line, s!"model: goroutine {p} is still inside its function ({repr (← pcOf p)})",
               "the implementation started another execution for the key")
 
@@ -201,17 +218,23 @@ def onEvent (e : Ev) : M Unit := do
     match st.s.m o.key with
     | some w => forceRelease ln (st.s.owner w)
     | none => pure ()
-    advs ln g [.b1, .c0, .c1, .c2, .c3, .f0, .f1]
+    advs ln g [.b1, .c0, .c1, .c2, .c3, .f0]
+    if o.spanic then tag "lc-model-fn-panics"; adv ln g 1 .fp else adv ln g 0 .f1
   | .fe => adv ln g o.id .e0
   | .ret =>
     forceRelease ln g
+    let wasPx := (← pcOf g) = .px
     adv ln g 0 .idle
     let st ← get
-    match st.s.rets.head? with
-    | none => throw (ln, "model: no return recorded", "return")
-    | some r =>
-      if some r.val ≠ o.val ∨ r.runs ≠ o.runs then
-        throw (ln, s!"model returns val={r.val} runs={r.runs}", s!"val={o.val} runs={o.runs}")
+    if wasPx then
+      if !o.panicked then throw (ln, "model: the panic of fn propagates to the caller", s!"returned val={o.val} err={o.err}")
+    else
+      if o.panicked then throw (ln, "model: the call returns", "the call panicked")
+      match st.s.rets.head? with
+      | none => throw (ln, "model: no return recorded", "return")
+      | some r =>
+        if some r.val ≠ o.val ∨ r.runs ≠ o.runs then
+          throw (ln, s!"model returns val={r.val} runs={r.runs}", s!"val={o.val} runs={o.runs}")
     modify fun st => { st with cur := st.cur.del g }
 
 def explain (h : List Obs) : Except Err (Nat × List String) := do
@@ -253,9 +276,11 @@ def forceDelete (line : Nat) (p : Tid) (pid : Nat) : M Unit := do
   let st ← get
   if (← pcOf p) = .d0 then
     for (g, o) in st.cur do
-      if (← pcOf g) = .l0 ∧ !o.ran ∧ source o = some pid then advs line g [.l1, .w0, .w1]
-    advs line p [.d1, .d2, .d3, .r0]
-  else if (← pcOf p) = .r0 then pure ()
+      -- (a joiner that panicked joins the first panicking flight that is deleted while it is invoked)
+      if (← pcOf g) = .l0 ∧ !o.ran ∧ (source o = some pid ∨ (o.panicked ∧ st.s.pn p ∧ st.s.key g = st.s.key p)) then
+        advs line g [.l1, .w0, .w1]
+    advs line p [.d1, .d2, .d3, (if (← get).s.pn p then .px else .r0)]
+  else if (← pcOf p) = .r0 ∨ (← pcOf p) = .px then pure ()
   else throw (line, s!"model: the flight of call {pid} (goroutine {p}) is still running ({repr (← pcOf p)})",
               "the implementation started another flight for the key / handed its result out")
 
@@ -280,9 +305,11 @@ def onEvent (e : Ev) : M Unit := do
     | some (p, pid) => forceDelete ln p pid
     | none => pure ()
     -- leader; the map has no instance (else `create` would not run)
-    advs ln g [.l1, .n0, .n1, .n2, .n3, .g0, .g1, .g2, .g3, .g4, .g5]
+    advs ln g [.l1, .n0, .n1, .n2, .n3, .g0, .g1, .g2, .g3, .g4]
+    if o.spanic then tag "rm-model-create-panics"; adv ln g 1 .gp else adv ln g 0 .g5
   | .fe =>
-    if o.serr then adv ln g 0 .m2
+    if o.spanic then pure ()
+    else if o.serr then adv ln g 0 .m2
     else
       adv ln g (o.id + 1) .g6
       advs ln g [.g7, .g8, .m2]
@@ -297,6 +324,7 @@ def onEvent (e : Ev) : M Unit := do
           -- a flight is registered: join it if that explains the result, else let it finish first
           let po := (← get).cur.lookup p
           let explains : Bool := source o == some pid || (o.val.isSome && (match po with | some q => !q.ran | none => false))
+            || (o.panicked && (match po with | some q => q.spanic | none => false))
           if explains then
             tag "rm-model-joined-flight"
             advs ln g [.l1, .w0, .w1]
@@ -314,28 +342,40 @@ def onEvent (e : Ev) : M Unit := do
           let p := st.s.leader c
           forceDelete ln p (((st.cur.lookup p).map (·.id)).getD 0)
         adv ln g 0 .w2
+    let nrets := (← get).s.rets.length
     adv ln g 0 .idle
     let st ← get
-    match st.s.rets.head? with
-    | none => throw (ln, "model: no return recorded", "return")
-    | some r =>
-      let want : Option Nat := if r.val = 0 then none else some (r.val - 1)
-      if want ≠ o.val ∨ (r.val = 0) ≠ o.err.isSome then
-        throw (ln, s!"model returns instance={want}", s!"val={o.val} err={o.err}")
+    if st.s.rets.length = nrets then
+      -- no return record: the call ended with a panic (the leader of a panicking create, or a joiner of its flight)
+      if !o.panicked then throw (ln, "model: the call ends with a panic", s!"returned val={o.val} err={o.err}")
+    else
+      if o.panicked then throw (ln, "model: the call returns", "the call panicked")
+      match st.s.rets.head? with
+      | none => throw (ln, "model: no return recorded", "return")
+      | some r =>
+        let want : Option Nat := if r.val = 0 then none else some (r.val - 1)
+        if want ≠ o.val ∨ (r.val = 0) ≠ o.err.isSome then
+          throw (ln, s!"model returns instance={want}", s!"val={o.val} err={o.err}")
     modify fun st => { st with cur := st.cur.del g }
 
-def explain (h : List Obs) : Except Err (Nat × List String) := do
+def explain (inj : List (Nat × Nat)) (h : List Obs) : Except Err (Nat × List String) := do
+  -- pre-registered resources (`Inject` before the goroutines start); instance `n` is `n + 1` in the model
+  let mut s0 := init
+  for (k, n) in inj do
+    match RM.inject s0 k (n + 1) with
+    | some s1 => s0 := s1
+    | none => throw (0, "model: Inject not enabled", "inject")
   let act : M Unit := do
     for e in events h do onEvent e
-  let (_, st) ← act.run { s := init }
+  let (_, st) ← act.run { s := s0 }
   return (st.n, st.tags)
 
 end RMx
 
-def explain (mode : String) (h : List Obs) : Except Err (Nat × List String) :=
+def explain (mode : String) (inj : List (Nat × Nat)) (h : List Obs) : Except Err (Nat × List String) :=
   if mode = "sf" then SFx.explain h
   else if mode = "lc" then LCx.explain h
-  else if mode = "rm" then RMx.explain h
+  else if mode = "rm" then RMx.explain inj h
   else .error (0, "unknown mode", mode)
 
 end GoZero.C07.Explain
